@@ -49,8 +49,8 @@ func init() {
 }
 
 const (
-	c05NGen      = 5 // generations / switch paths 0..4
-	c05BadGen    = 4 // lacks the validation record
+	c05NGen      = 5                // generations / switch paths 0..4
+	c05BadGen    = 4                // lacks the validation record
 	c05StepLimit = 10 * time.Second // 2 s is not enough for a RocksDB open on a loaded machine
 )
 
@@ -405,16 +405,25 @@ func (w *c05worker) observe(rc int, herr error, rw *recWriter) {
 
 type c05case struct {
 	backend string
+	cache   bool
 	workers []*c05worker
 	steps   []int
 }
 
 func c05parse(line string) *c05case {
 	f := strings.Split(line, " ")
+	// `cdbc` / `rdbc`: the same with the response cache enabled (sequential schedules only: a cache
+	// hit has fewer yield points than the model's query, which does not matter when every worker
+	// runs to completion before the next one starts)
+	cache := false
+	if len(f) == 4 && (f[1] == "cdbc" || f[1] == "rdbc") {
+		cache = true
+		f[1] = f[1][:3]
+	}
 	if len(f) != 4 || f[0] != "sched" || (f[1] != "cdb" && f[1] != "rdb") {
 		return nil
 	}
-	c := &c05case{backend: f[1]}
+	c := &c05case{backend: f[1], cache: cache}
 	if f[2] != "-" {
 		for i, spec := range strings.Split(f[2], ";") {
 			w := c05parseWorker(i, spec)
@@ -482,7 +491,7 @@ func c05run(line string) (impl, verdict string) {
 	h, err := dnsserver.NewFBDNSDBBasic(dnsserver.HandlerConfig{},
 		dnsserver.DBConfig{Path: c05work(c.backend, 0), Driver: driver, ReloadTimeout: 10 * time.Second,
 			ValidationKey: c05ValidationKey},
-		dnsserver.CacheConfig{}, &dnsserver.DummyLogger{}, &stats.DummyStats{})
+		dnsserver.CacheConfig{Enabled: c.cache, LRUSize: 1024}, &dnsserver.DummyLogger{}, &stats.DummyStats{})
 	if err != nil {
 		return "handler-error", "FAIL:setup"
 	}
@@ -1067,6 +1076,57 @@ func c05gen(g *gen, tier string, w *bufio.Writer) {
 		}
 		if s, ok := g.c05schedule("cdb", ws, false); ok {
 			fmt.Fprintf(w, "sched cdb %s %s\n", strings.Join(ws, ";"), s)
+		}
+	}
+	// 2b. response cache on, sequential: queries (repeated names, so that cache hits occur), publishes
+	// and reloads one after the other; every query must be answered from the generation installed by
+	// the last successful reload (a catch-up reload that leaves the cache alone is visible here)
+	nc := 60
+	if thorough {
+		nc = 1500
+	}
+	for i := 0; i < nc; i++ {
+		b := "cdb"
+		if i%2 == 1 {
+			b = "rdb"
+		}
+		var ws []string
+		qn := g.pick(c05queries)
+		for k, n := 0, 4+g.intn(8); k < n; k++ {
+			switch g.intn(6) {
+			case 0, 1, 2:
+				if g.chance(1, 3) {
+					qn = g.pick(c05queries)
+				}
+				ws = append(ws, qn)
+			case 3:
+				ws = append(ws, fmt.Sprintf("p:%d:%d", g.intn(2), 1+g.intn(3)))
+			default:
+				r := g.c05reload(b)
+				if strings.Contains(r, "timeout") {
+					r = "r:partial"
+				}
+				ws = append(ws, r)
+			}
+		}
+		var steps []string
+		for wi := range ws {
+			for k := 0; k < 14; k++ {
+				steps = append(steps, strconv.Itoa(wi))
+			}
+		}
+		sim := c05newSim(b, ws)
+		ok := true
+		for wi := range ws {
+			for k := 0; k < 14 && sim.enabled(wi); k++ {
+				sim.step(wi)
+			}
+			if sim.enabled(wi) || sim.known {
+				ok = false
+			}
+		}
+		if ok {
+			fmt.Fprintf(w, "sched %sc %s %s\n", b, strings.Join(ws, ";"), strings.Join(steps, ";"))
 		}
 	}
 	// 3. random schedules, up to 4 queries × 3 reloads × publishes, both backends
